@@ -16,8 +16,11 @@
 (*         exception raised inside codecs.type_checker)                    *)
 (*                                                                         *)
 (* A path that is reproduced exactly by the named deviation                *)
-(* DevPathRecursiveTypeName gets verdict "dev".  A foreign exception is    *)
-(* rejected with the key  <KindName>:enc-exc:<Class>@<site>.               *)
+(* DevPathRecursiveTypeName, and bytes returned where the named deviation  *)
+(* DevAdditionErrorsSwallowed applies, get verdict "dev".  A foreign       *)
+(* exception is rejected with the key <KindName>:enc-exc:<Class>@<site>,   *)
+(* unless the uncorrupted value already fails in exactly the same way in   *)
+(* that codec (skip: the defect belongs to another property).              *)
 (***************************************************************************)
 EXTENDS CorruptRules, TLCExt, Json, IOUtils
 
@@ -39,22 +42,46 @@ ExcKey(phase, o) ==
 
 V(check, verdict, detail) == [check |-> check, verdict |-> verdict, detail |-> detail]
 
-CorVerdict(L, o) ==
+\* per corruption, computed once per line: applicability, expected and deviating prefix
+CorFacts(L) ==
   LET env == L.env
       T == env.types[L.top]
-      c == L.cors[o.ci]
-      v == L.vals[c.vi]
-      x == Expected(env, T, v, c)
-      want == JoinDot(<<L.tname>> \o x.path)
-      devWant == JoinDot(<<L.tname>> \o DevPath(env, L.top, c.pos, L.names))
+      adm == Force([vi \in 1..Len(L.vals) |-> Admits(env, T, L.vals[vi])])
+  IN Force([ci \in 1..Len(L.cors) |->
+       LET c == L.cors[ci]
+           v == L.vals[c.vi]
+           x == Expected(env, T, v, c)
+       IN [app |-> Applicable(env, T, v, c), adm |-> adm[c.vi],
+           want |-> JoinDot(<<L.tname>> \o x.path)]])
+
+DevWant(L, c) == JoinDot(<<L.tname>> \o DevPath(L.env, L.top, c.pos, L.names))
+
+\* does the *uncorrupted* value vi already fail with the same foreign exception in codec cd?
+\* (then the corrupted component was never looked at: a defect of another property)
+GoodFailsSame(L, vi, cd, key) ==
+  \E j \in 1..Len(L.good) :
+     /\ L.good[j].vi = vi /\ Has(L.good[j], "enc")
+     /\ \E h \in 1..Len(L.good[j].codecs) : L.good[j].codecs[h] = cd
+     /\ L.good[j].enc.st # "ok" /\ ExcKey("enc", L.good[j].enc) = key
+
+CorVerdict(L, f, o) ==
+  LET c == L.cors[o.ci]
       e == o.enc
-  IN IF ~Applicable(env, T, v, c) THEN V("COR", "machinery", "recorded corruption is not applicable: " \o ToString(c))
-     ELSE IF ~Admits(env, T, v) THEN V("COR", "machinery", "the value to corrupt is not well-formed")
-     ELSE IF e.st = "ok" THEN V("COR", "reject", KindName(c) \o ": corrupted value was encoded (bytes returned)")
-     ELSE IF ~IsLibraryError(e) THEN V("COR", "reject", KindName(c) \o ":" \o ExcKey("enc", e))
-     ELSE IF e.pfx = want THEN V("COR", "ok", "")
-     ELSE IF e.pfx = devWant THEN V("COR", "dev", ToString({"DevPathRecursiveTypeName"}))
-     ELSE V("COR", "reject", KindName(c) \o ": error path '" \o e.pfx \o "' but the component is at '" \o want \o "'")
+      kind == KindName(c)
+  IN IF ~f.app THEN V("COR", "machinery", "recorded corruption is not applicable: " \o ToString(c))
+     ELSE IF ~f.adm THEN V("COR", "machinery", "the value to corrupt is not well-formed")
+     ELSE IF e.st = "ok"
+          THEN (IF c.kind \in {"missing", "enum"} /\ InsideAddition(L.env, L.env.types[L.top], c.pos)
+                   /\ \A h \in 1..Len(o.codecs) : o.codecs[h] \in SwallowingCodecs
+                THEN V("COR", "dev", ToString({"DevAdditionErrorsSwallowed"}))
+                ELSE V("COR", "reject", kind \o ": corrupted value was encoded (bytes returned)"))
+     ELSE IF ~IsLibraryError(e)
+          THEN (IF \A h \in 1..Len(o.codecs) : GoodFailsSame(L, c.vi, o.codecs[h], ExcKey("enc", e))
+                THEN V("COR", "skip", "the uncorrupted value already fails the same way: " \o ExcKey("enc", e))
+                ELSE V("COR", "reject", kind \o ":" \o ExcKey("enc", e)))
+     ELSE IF e.pfx = f.want THEN V("COR", "ok", "")
+     ELSE IF e.pfx = DevWant(L, c) THEN V("COR", "dev", ToString({"DevPathRecursiveTypeName"}))
+     ELSE V("COR", "reject", kind \o ": error path '" \o e.pfx \o "' but the component is at '" \o f.want \o "'")
 
 GoodVerdict(L, o) ==
   LET e == o.enc
@@ -62,15 +89,16 @@ GoodVerdict(L, o) ==
   IN IF inChecker THEN V("GOOD", "reject", "well-typed value rejected by the type check: " \o ExcKey("enc", e))
      ELSE V("GOOD", "ok", "")
 
-Rec(vi, o, vd) == [vi |-> vi, codec |-> o.codec, ne |-> o.ne, w |-> Len(o.codecs),
+Rec(vi, o, vd) == [vi |-> vi, codec |-> o.codec, ne |-> o.ne, w |-> o.w,
                    check |-> vd.check, verdict |-> vd.verdict, detail |-> vd.detail]
 
 LineReport(L) ==
-  LET cor == [j \in 1..Len(L.obs) |->
+  LET facts == CorFacts(L)
+      cor == [j \in 1..Len(L.obs) |->
                 LET o == L.obs[j]
                 IN IF Has(o, "machinery") THEN Rec(o.ci, o, V("ANY", "machinery", o.machinery))
                    ELSE IF Has(o, "compile") THEN Rec(o.ci, o, V("ANY", "skip", "not compilable: " \o ExcKey("compile", o.compile)))
-                   ELSE Rec(o.ci, o, CorVerdict(L, o))]
+                   ELSE Rec(o.ci, o, CorVerdict(L, facts[o.ci], o))]
       good == [j \in 1..Len(L.good) |->
                 LET o == L.good[j]
                 IN IF Has(o, "machinery") THEN Rec(o.vi, o, V("ANY", "machinery", o.machinery))
